@@ -185,7 +185,8 @@ CLAIMED["C09"] = dict(
               "and inside writes), from every start state a past crash can leave (any leftover temporary file), lifted by induction "
               "to every history of completed and crashed saves + strace of the real save compared with that sequence + the real server restarted on every "
               "materialised crash directory",
-    text="C09 (every crash state restores a complete old-or-new version of both files, saving continues), "
+    text="C09_first_save (a directory in which a file was never saved: every crash leaves each file as the save found it — complete or still absent — or new), "
+         "C09 (every crash state restores a complete old-or-new version of both files, saving continues), "
          "C09_from_any_leftover and C09_history (the same for every history of saves and crashes, stale temporary files "
          "included) are kernel-checked over saveOps regenerated from user_pref.rs; the traced system calls of a real save must equal saveOps; each crash directory "
          "is restored by the real binary.",
@@ -195,9 +196,12 @@ CLAIMED["C13"] = dict(
     engine="lean+corr_runtime",
     technique="Lean 4 theorem over the task inventory extracted from main.rs (no never-yielding loop on an async worker, hence "
               "serving for every worker count >= 1) + the real binary started with TOKIO_WORKER_THREADS = 1..16",
-    text="C13, C13_occupancy, C13_duties are kernel-checked over the regenerated inventory; each worker count's observation "
-         "(answers, registration applied, periodic save) is compared with the occupancy model's prediction.",
-    note="PARTIAL: tokio's scheduler and blocking pool are not modelled, only worker occupancy. " + SRV_NOTE, design="5/C13")
+    text="C13, C13_occupancy, C13_duties and C13_blocking_pool (with the blocking pool as main.rs builds the runtime — tokio's default, a "
+         "constant, workers*k or workers+k, regenerated — every never-ending blocking duty has a pool thread for every worker count >= 1) "
+         "are kernel-checked over the regenerated inventory; each worker count's observation (answers, registration applied, periodic "
+         "save, sessions recorded, requests arriving during the saves with as few workers as clients) is compared with the model's prediction.",
+    note="PARTIAL: tokio's scheduler is not modelled, only worker occupancy and the size of the blocking pool; waiting for the async "
+         "runtime from inside a duty (block_on) is reported by the translator, not modelled. " + SRV_NOTE, design="5/C13")
 CLAIMED["C14"] = dict(
     engine="lean+corr_concurrent",
     technique="Lean 4 proofs on an interleaving model whose per-handler / per-loop event lists (lock acquisitions, scope-end releases, "
